@@ -32,7 +32,7 @@ RULE = (
     "distinct = distinct (path, form) pairs / distinct project digests"
 )
 ASSUMPTIONS = [
-    "file-system exotica (x.py beside x/, dotted directory names, symlinks, syntax errors, relative imports beyond the top level) are not generated",
+    "file-system exotica (x.py beside x/, dotted directory names, symlinks, syntax errors, relative imports beyond the top level) are not generated; source encodings: UTF-8 with and without BOM and one PEP 263 latin-1 file",
     "positions whose node class the generic builder cannot instantiate are reported as unbuilt_positions and make the run inconclusive",
 ]
 SHARD_TIMEOUT = {"quick": 900, "thorough": 3000}
@@ -284,6 +284,20 @@ HOSTILE = {
     "match_guard": "match 1:\n    case int(x) if x > 0:\n        import proj.tg.t0\n    case _:\n        pass\n",
     "comment_only_lines": "# import proj.tg.t1\nimport proj.tg.t0  # import proj.tg.t1\n",
     "string_import": "s = 'import proj.tg.t1'\nimport proj.tg.t0\n",
+    # legal source encodings / layouts (literal bytes)
+    "utf8_bom": {"hex": ("\ufeffimport proj.tg.t0\n").encode("utf-8").hex()},
+    "utf8_bom_and_cookie": {"hex": ("\ufeff# -*- coding: utf-8 -*-\nimport proj.tg.t0\nname = 'gr\u00f6\u00dfe'\n").encode("utf-8").hex()},
+    "coding_cookie_latin1": {"hex": ("# -*- coding: latin-1 -*-\nname = 'gr\u00f6\u00dfe'\nimport proj.tg.t0\n").encode("latin-1").hex()},
+    "crlf_line_endings": {"hex": b"x = 1\r\nif x:\r\n    import proj.tg.t0\r\n".hex()},
+    "form_feed_and_tabs": {"hex": b"\x0cdef f():\n\timport proj.tg.t0\n".hex()},
+    "no_trailing_newline": "import proj.tg.t0",
+    "unicode_identifiers": "gr\u00f6\u00dfe = 1\nclass \u0414\u0430\u043d\u043d\u044b\u0435:\n    import proj.tg.t0\n",
+    "soft_keywords_as_names": "match = 1\ncase = 2\ntype = 3\nimport proj.tg.t0 as match\n",
+    "type_alias_and_generics": "type X[T] = list[T]\ndef f[T](a: T) -> T:\n    import proj.tg.t0\n    return a\n",
+    "deeply_nested": "".join("    " * i + "def f%d():\n" % i for i in range(60)) + "    " * 60 + "import proj.tg.t0\n",
+    "same_module_many_times": "import proj.tg.t0\nimport proj.tg.t0 as again\nfrom proj.tg import t0\nfrom proj.tg import t0 as third\nfrom proj.tg.t0 import name, name as n2\n",
+    "future_import_first": "from __future__ import annotations\nimport proj.tg.t0\n",
+    "fstring_nested_quotes": "x = f\"{'import proj.tg.t1'!r:>{10}}\"\nimport proj.tg.t0\n",
 }
 
 
@@ -291,10 +305,15 @@ def hostile(acc):
     for name, src in HOSTILE.items():
         spec = {"root": "proj", "dirs": [], "files": {"__init__.py": "", "tg/__init__.py": "", "tg/t0.py": "", "tg/t1.py": "", "pk/__init__.py": "", "pk/imp.py": src}}
         case = {"kind": "hostile", "name": name, "spec": spec}
-        se = scan_and_attribute(spec, acc, case)
-        got = {b for a, b in se.imps if a == "proj.pk.imp"}
         acc.nontrivial({"h": name})
         acc.hist("hostile", name)
+        try:
+            se = scan_and_attribute(spec, acc, case)
+        except Exception as e:  # noqa: BLE001  a legal source file must be scanned, not rejected
+            HUB.case = case
+            HUB.violation("C02", f"hostile:{name}:scan-raises-{type(e).__name__}", f"scanning a project with a legal source file raised {type(e).__name__}: {e}", {"source": src})
+            continue
+        got = {b for a, b in se.imps if a == "proj.pk.imp"}
         if got != {"proj.tg.t0"}:
             HUB.case = case
             HUB.violation("C02", f"hostile:{name}", f"expected exactly the edge proj.pk.imp -> proj.tg.t0, got {sorted(got)}", {"source": src, "got": sorted(got)})
